@@ -125,3 +125,39 @@ REF_CTORS = {
 }
 # constructors with a name argument
 REF_NAMED_CTORS = {"func": ("Function", ["name", "sub"]), "reff": ("Reference", ["name"]), "symbol": ("Symbol", ["name"])}
+
+
+# ---------------------------------------------------------------------------------------------------------------
+# Reference LEXICAL structure (statement of C08), written independently of the source's regexes.
+#   keywords and punctuation: exact text; a word is a keyword only when it matches one exactly (longest match),
+#   otherwise an identifier
+#   literals: i<sign?><digits> | 0x<hex+> | 0o<octal+> | 0b<binary+> | f<sign?><number><exponent?> | d<sign?><number>
+#             where <number> is digits, digits.digits or .digits;  "..." with backslash escapes
+#   layout: Unicode white space and `//` to the end of the line, both insignificant
+# Note: the octal token admits the digit 8 (`0o8`): it is one token whose numeric conversion fails, i.e. a parse error,
+# which is what the statement requires of an ill-formed literal.
+REF_LEX_CLASSES = [
+    ("STRING", r'"([^"\\]|\\.)*"'),
+    ("INT", r"i[+-]?[0-9]+"),
+    ("HEX_INT", r"0x[0-9a-fA-F]+"),
+    ("OCT_INT", r"0o[0-8]+"),
+    ("BIN_INT", r"0b[01]+"),
+    ("FLOAT", r"f[+-]?([0-9]+(\.[0-9]+)?|\.[0-9]+)([eE][+-]?[0-9]+)?"),
+    ("DECIMAL", r"d[+-]?([0-9]+(\.[0-9]+)?|\.[0-9]+)"),
+]
+REF_LEX_LOW = [("IDENT", r"[a-zA-Z][a-zA-Z0-9_]*"), ("INDEX", r"[0-9]+")]
+REF_LEX_SKIP = [r"\s+", r"//[^\n\r]*[\n\r]*"]
+
+
+def reference_lexer():
+    from .lexer import Lexer, Pattern
+    pats = []
+    for lit in sorted(literals()):
+        pats.append(Pattern("T:" + lit, "lit", lit, 0, False))
+    for cls, rx in REF_LEX_CLASSES:
+        pats.append(Pattern("C:" + cls, "re", rx, 0, False))
+    for cls, rx in REF_LEX_LOW:
+        pats.append(Pattern("C:" + cls, "re", rx, 1, False))
+    for k, rx in enumerate(REF_LEX_SKIP):
+        pats.append(Pattern(f"__skip{k}", "re", rx, 0, True))
+    return Lexer(pats)
